@@ -1192,6 +1192,10 @@ package sio
 //@   opt safety off
 //@   callsite onParserFinish$1 go
 //@     requires false [C02.dispatch.in.arrival.order.server]
+// C14: a namespace is never admitted on the receive path itself - its middlewares may take their time, and while they
+// run there the connection cannot take in the peer's PONG: the heartbeat would close a peer that keeps answering.
+//@   callsite (*serverConn).connect sync
+//@     requires false [C14.admission.never.on.the.receive.path]
 
 // ---------------------------------------------------------------------------------------------
 // C16. Lock discipline: which mutex guards which fields (every read/write of a guarded field outside the constructor
